@@ -78,6 +78,7 @@ type RunConfig struct {
 	apiPkg        string
 	noopPrefixes  []string
 	solverTimeout int
+	knownSigs     map[string]bool
 }
 
 var defaultNoop = []string{
@@ -347,6 +348,8 @@ type HarnessResult struct {
 	Steps       int64
 }
 
+var knownSigsGlobal = map[string]bool{}
+
 func runHarness(l *Loaded, spec *CheckSpec, h *HarnessSpec, tier string, extraParams map[string]int, workers int) (*HarnessResult, error) {
 	ts := h.Quick
 	if tier == "thorough" {
@@ -392,6 +395,7 @@ func runHarness(l *Loaded, spec *CheckSpec, h *HarnessSpec, tier string, extraPa
 	if ts.MaxIdleTicks > 0 {
 		cfg.MaxIdleTicks = ts.MaxIdleTicks
 	}
+	cfg.knownSigs = knownSigsGlobal
 	cfg.noopPrefixes = append(append([]string{}, defaultNoop...), h.Noop...)
 	if len(h.Interpret) > 0 {
 		var keep []string
@@ -448,7 +452,7 @@ func runHarness(l *Loaded, spec *CheckSpec, h *HarnessSpec, tier string, extraPa
 	res := &HarnessResult{Name: h.Name, Paths: ex.paths, Ends: ex.ends, EndSamples: ex.endSamples, Decisions: ex.decisions,
 		Reached: ex.reached, Violations: ex.violations, Samples: ex.samples, Queries: ex.queries,
 		SolverTimeS: ex.solverTime.Seconds(), Unknown: ex.nUnknown, SolverErrs: ex.solverErrs,
-		WallS: time.Since(ex.started).Seconds(), Truncated: ex.truncated, MaxDecDepth: ex.maxDepthDec, Steps: totalSteps}
+		WallS: time.Since(ex.started).Seconds(), Truncated: ex.truncated || ex.stoppedOnViolation, MaxDecDepth: ex.maxDepthDec, Steps: totalSteps}
 	if os.Getenv("GOSYM_PROGRESS") != "" {
 		fmt.Fprintf(os.Stderr, "gosym: idle=%.1fs model=%.1fs solver=%.1fs steps=%d\n", ex.idle.Seconds(), ex.modelTime.Seconds(), ex.solverTime.Seconds(), totalSteps)
 	}
